@@ -71,6 +71,11 @@ def merge_resources(parser, resources, keep_newest=True):
             # prune.
             return (entity, entity)
 
+        if isinstance(entity, cl.IniSection):
+            # Section names are no entity keys, a section [a] must not
+            # collide with an entity named a.
+            return (("[section]", entity.key), entity)
+
         return (entity.key, entity)
 
     entities = reduce(
